@@ -433,6 +433,9 @@ impl Check for C12 {
         if out.pr.iter().any(|p| p.get_r().iter().any(|s| matches!(s, Symbol::N(n, ..) if *n == start))) {
             return Verdict::Fail("C12:start_symbol_on_rhs".into(), format!("start symbol {start} occurs on a right-hand side\n{}", ctx()));
         }
+        if start != cfg.get_start_symbol() && cfg.get_non_terminal_set().contains(&start) {
+            return Verdict::Fail("C12:new_start_symbol_not_fresh".into(), format!("new start symbol {start} is a name the input uses\n{}", ctx()));
+        }
         let ig = IGrammar::from(&case.grammar);
         let ia = igrammar_from_cfg(cfg, &ig.terms);
         let ib = igrammar_from_cfg(&out, &ia.terms);
